@@ -38,11 +38,18 @@ class Machinery(Exception):
 
 
 def load_findings():
+    out = []
     p = os.path.join(VERIF, "known_findings.json")
-    if not os.path.exists(p):
-        return []
-    with open(p) as f:
-        return json.load(f)["findings"]
+    if os.path.exists(p):
+        with open(p) as f:
+            out += json.load(f)["findings"]
+    d = os.path.join(VERIF, "known_findings.d")      # staging area, merged by tools/merge_findings.py
+    if os.path.isdir(d):
+        for fn in sorted(os.listdir(d)):
+            if fn.endswith(".json"):
+                with open(os.path.join(d, fn)) as f:
+                    out += json.load(f)["findings"]
+    return out
 
 
 class Report:
